@@ -12,7 +12,11 @@ lists of any length, the loop over nodes / edges under an invariant with ghost r
 from; the contract of `list += ...` updates them): every angle (a, n, b) joins two different atoms bonded to n, every pair of distinct neighbours of
 every atom is listed, none twice forwards or backwards; every dihedral is a bonded chain i-j-k-l with i != k, l != j, every chain around every bond
 is listed, none twice.  networkx (nodes, adj, edges as the bond graph) and itertools.combinations enter by assumed contracts.
-assign_dihedral_types (torsion counts, dropped torsions), renaming invariance and the retyping tables are BOUNDED on the real code (bounded/C19.py).
+assign_dihedral_types: block contracts on the statements that count the torsions about a bond, build a dihedral's type key and apply the
+exclusion set (any dihedral, any type assignment): counted under the central bond in either direction and before the exclusion, key = UFF
+sequence up to reversal + the count filed under the dihedral's own central bond, same key for the dihedral listed backwards, exclusion through
+delete_if_all_in_set exactly for sets of at least four atoms.  Its reversed deletion loop (torsions without parameters), the first-seen
+numbering and the coefficient strings, renaming invariance and the retyping tables are BOUNDED on the real code (bounded/C19.py).
 """
 import z3
 
@@ -24,7 +28,9 @@ META = {
     'level': 'proof',
     'explanation': "canonical key lemmas proved for all tuples (arity 2-4); exclusion filter proved; angle and dihedral enumeration proved complete and "
                    "duplicate-free for bond lists of any length (networkx / itertools by assumed contracts); bond and angle typing proved to depend "
-                   "only on the UFF type sequence up to reversal with the parameters of that sequence attached; dihedral typing, renaming invariance "
+                   "only on the UFF type sequence up to reversal with the parameters of that sequence attached; the type key of a dihedral (sequence up to "
+                   "reversal + torsions about its central bond, counted before exclusion) and the exclusion test proved as block contracts; the rest of "
+                   "dihedral typing (numbering, dropped torsions, coefficient strings), renaming invariance "
                    "and the retyping tables only checked with a stated bound",
     'trusted_base': ["tuple comparison is lexicographic over a total order on the elements (ints / strs)", "z3 soundness", "pyvc symbolic interpreter"],
 }
@@ -142,11 +148,13 @@ def build(S):
     prove_assign_types(S)
     prove_calc_angles(S)
     prove_calc_dihedrals(S)
+    prove_dihedral_blocks(S)
     S.clause('canonical key: reversal invariant and injective up to reversal', 'PROVED (arities 2-4, any total order)')
     S.clause('exclusion set removes exactly the terms wholly inside it', 'PROVED (loop invariant + assumed np.delete contract)')
     S.clause('bond / angle typing: same type iff UFF sequences agree up to reversal; the type carries the parameters of that sequence; dense numbering', 'PROVED (assign_bond_types, assign_angle_types; first-seen idiom assumed)')
     S.clause('angle enumeration: every pair of distinct bonds sharing an atom exactly once; dihedral enumeration: every bonded chain around every bond exactly once', 'PROVED (calc_angles, calc_dihedrals: loop invariants with ghost rows; networkx / itertools contracts assumed)')
-    S.clause('dihedral typing incl. torsion counts and dropped torsions; renaming invariance; retyping tables', 'BOUNDED (bounded/C19.py)')
+    S.clause('dihedral type key: UFF sequence up to reversal + number of torsions about the own central bond, counted before exclusion, direction independent; exclusion applied for sets of >= 4 atoms', 'PROVED (block contracts on the count / key / exclusion statements of assign_dihedral_types)')
+    S.clause('dihedral typing: first-seen numbering, dropped torsions, coefficient strings; renaming invariance; retyping tables', 'BOUNDED (bounded/C19.py)')
 
 
 # ------------------------------------------------------------------------------------------------
@@ -768,3 +776,207 @@ def _calc_dihedrals(S):
     if nret == 0:
         raise OutOfSubset("calc_dihedrals has no returning path")
     S.add_interp_obligations(I)
+
+
+# ------------------------------------------------------------------------------------------------
+# assign_dihedral_types: block contracts on the statements that build a dihedral's type key and apply the exclusion set.  The reversed
+# deletion loop (torsions without parameters), first-seen numbering and the coefficient strings stay BOUNDED (bounded/C19.py).
+import ast as _ast
+
+
+def prove_dihedral_blocks(S):
+    RU = 'mofun/rough_uff.py'
+    FN = 'assign_dihedral_types'
+    S.function(RU, FN)
+    S.guarded(FN + ' (type key of a dihedral, exclusion)', lambda: _dihedral_blocks(S, RU, FN))
+
+
+def _one(fn, pred, what):
+    hits = [n for n in _ast.walk(fn) if pred(n)]
+    if len(hits) != 1:
+        raise OutOfSubset("expected exactly one statement `%s` in assign_dihedral_types, found %d (contract no longer applies)" % (what, len(hits)))
+    return hits[0]
+
+
+def _dihedral_blocks(S, RU, FN):
+    I = S.interp()
+    I.allow_merge = False
+    models_py.install(I)
+    models_np.install(I)
+    key4 = key_functions(I, 4)
+    I.reg.assumptions_used.add("contract of helpers.typekey (proved above, arities 2-4): the key is the tuple or its reverse and is reversal invariant")
+    fn = I.module(RU).find(FN)
+    body = fn.body
+    is_assign_to = lambda n, name: isinstance(n, _ast.Assign) and len(n.targets) == 1 and _ast.unparse(n.targets[0]) == name
+    cnt_st = _one(fn, lambda n: is_assign_to(n, 'num_dihedrals_per_bond'), 'num_dihedrals_per_bond = Counter([...])')
+    typ_st = _one(fn, lambda n: is_assign_to(n, 'dihedral_types') and isinstance(n.value, _ast.ListComp) and 'typekey' in _ast.unparse(n.value),
+                  'dihedral_types = [(*typekey(...), count) for atup in atoms.dihedrals]')
+    exc_st = _one(fn, lambda n: isinstance(n, _ast.If) and 'exclude' in _ast.unparse(n.test), 'if exclude is not None and len(exclude) >= 4')
+    v = cnt_st.value
+    if not (isinstance(v, _ast.Call) and _ast.unparse(v.func) in ('Counter', 'collections.Counter') and len(v.args) == 1 and not v.keywords
+            and isinstance(v.args[0], (_ast.ListComp, _ast.GeneratorExp)) and len(v.args[0].generators) == 1 and not v.args[0].generators[0].ifs
+            and _ast.unparse(v.args[0].generators[0].iter) == 'atoms.dihedrals'):
+        raise OutOfSubset("the torsion count is not `Counter([key for row in atoms.dihedrals])` (contract no longer applies)")
+    cgen, celt = v.args[0].generators[0], v.args[0].elt
+    tv = typ_st.value
+    if not (len(tv.generators) == 1 and not tv.generators[0].ifs and _ast.unparse(tv.generators[0].iter) == 'atoms.dihedrals'):
+        raise OutOfSubset("the type keys are not computed by one unfiltered comprehension over atoms.dihedrals (contract no longer applies)")
+    tgen, telt = tv.generators[0], tv.elt
+    top = {id(s): k for k, s in enumerate(body)}
+    if not (id(cnt_st) in top and id(typ_st) in top and id(exc_st) in top):
+        raise OutOfSubset("count / exclusion / type statements are not top-level statements of assign_dihedral_types")
+    # order: torsions are counted over the full list (before the exclusion set removes any), keys are taken after it
+    S.add(I, FN + "/order/torsions-about-a-bond-counted-before-exclusion-keys-taken-after", [],
+          z3.BoolVal(top[id(cnt_st)] < top[id(exc_st)] < top[id(typ_st)]), kind='frame',
+          clause='for dihedrals also the number of torsions about the central bond')
+
+    # the parameters of a type are asked for with the caller's bond-order rules (three-valued syntactic frame obligation, contracts/frames.py)
+    from contracts import frames
+    calls = [n for n in _ast.walk(fn) if isinstance(n, _ast.Call) and _ast.unparse(n.func).split('.')[-1] == 'dihedral_params']
+    if len(calls) != 1:
+        raise OutOfSubset("expected exactly one call of dihedral_params in assign_dihedral_types, found %d (contract no longer applies)" % len(calls))
+    kw = [k for k in calls[0].keywords if k.arg == 'bond_order_rules']
+    kinds = frames.rebindings(fn, 'bond_order_rules') + ([frames.classify(kw[0].value, 'bond_order_rules')] if kw else ['changed'])
+    vd = frames.verdict(kinds)
+    if vd == 'unknown':
+        raise OutOfSubset("cannot read which bond-order rules dihedral_params receives")
+    S.add(I, FN + "/frame/dihedral-params-asked-with-the-callers-bond-order-rules", [], z3.BoolVal(vd == 'same'), kind='frame',
+          clause='attaches to each type the parameters of that sequence')
+
+    tk_clo = I.closure_for('mofun/helpers.py', 'typekey')
+
+    def m_typekey(ctx, args, kwargs):
+        t = args[0]
+        if isinstance(t, (list, tuple)) and len(t) == 4 and all(isinstance(x, Sym) and x.e.sort() == StrS for x in t):
+            return tuple(Sym(k) for k in key4([x.e for x in t]))
+        if isinstance(t, (list, tuple)) and len(t) == 2 and all(isinstance(x, Sym) and x.e.sort() == INT for x in t):
+            return I.call_closure(tk_clo, [t], {})           # atom indices: the real typekey, inlined
+        raise OutOfSubset("typekey is called with something else than 4 UFF type names or 2 atom indices")
+    I.models['mofun/helpers.py:typekey'] = m_typekey
+
+    class CountMap:
+        pass
+    counts = CountMap()
+    cnt = I.reg.ufunc('torsions_filed_under_key', INT, INT, INT)
+
+    def m_count(ctx, cont, idx):
+        k = idx[1]
+        if idx[0] == 'tuple' and all(isinstance(x, tuple) and x[0] == 'index' for x in k):
+            k = tuple(x[1] for x in k)                  # counts[(a, b)]: a tuple display as subscript
+        elif idx[0] != 'index':
+            raise OutOfSubset("the torsion count is looked up with a slice")
+        if not (isinstance(k, tuple) and len(k) == 2):
+            raise OutOfSubset("the torsion count is looked up with something else than a 2-tuple key")
+        return Sym(cnt(to_z3(k[0]), to_z3(k[1])))
+    I.models['getitem:CountMap'] = m_count
+
+    NA = z3.Int('n_atoms')
+    d = [z3.Int('dih_a%d' % c) for c in range(4)]
+    UFF = z3.Array('uff_atom_types', INT, StrS)
+
+    def thunk():
+        I.assume(NA >= 0)
+        for x in d:
+            I.assume(z3.And(x >= 0, x < NA))
+        uff = SymSeq(NA, [UFF], None, 'list', 'uff_atom_types')
+        out = []
+        for row in (d, list(reversed(d))):
+            env = {'uff_atom_types': uff, 'num_dihedrals_per_bond': counts, '__row': tuple(Sym(x) for x in row)}
+            ctx = I.block_ctx(RU, FN, env)
+            ctx.exec_block([_ast.fix_missing_locations(_ast.Assign(targets=[cgen.target], value=_ast.Name(id='__row', ctx=_ast.Load()), lineno=0, col_offset=0))])
+            ck = ctx.eval(celt)
+            ctx2 = I.block_ctx(RU, FN, env)
+            ctx2.exec_block([_ast.fix_missing_locations(_ast.Assign(targets=[tgen.target], value=_ast.Name(id='__row', ctx=_ast.Load()), lineno=0, col_offset=0))])
+            tk = ctx2.eval(telt)
+            out.append((ck, tk))
+        return out
+
+    paths = I.explore(thunk)
+    if not paths:
+        raise OutOfSubset("no path through the key statements")
+    eq = lambda x, y: z3.And(*[p == q for p, q in zip(x, y)])
+    for pi, p in enumerate(paths):
+        if p.outcome != 'return':
+            raise OutOfSubset("the key statements of assign_dihedral_types raise")
+        (ck, tk), (ckr, tkr) = p.value
+        if not (isinstance(ck, tuple) and len(ck) == 2 and isinstance(ckr, tuple) and len(ckr) == 2):
+            raise OutOfSubset("the key a torsion is counted under is not a 2-tuple")
+        if not (isinstance(tk, tuple) and len(tk) == 5 and isinstance(tkr, tuple) and len(tkr) == 5):
+            raise OutOfSubset("the type key of a dihedral is not a 5-tuple (four type names and a count)")
+        ck, ckr, tk, tkr = [[to_z3(x) for x in t] for t in (ck, ckr, tk, tkr)]
+        seq = [z3.Select(UFF, x) for x in d]
+        S.add(I, FN + "/post/torsion-counted-under-its-central-bond#%d" % pi, p.pc, z3.Or(eq(ck, [d[1], d[2]]), eq(ck, [d[2], d[1]])),
+              clause='for dihedrals also the number of torsions about the central bond')
+        S.add(I, FN + "/post/count-key-is-direction-independent#%d" % pi, p.pc, eq(ck, ckr),
+              clause='for dihedrals also the number of torsions about the central bond')
+        S.add(I, FN + "/post/type-key-starts-with-the-uff-sequence-up-to-reversal#%d" % pi, p.pc, z3.Or(eq(tk[:4], seq), eq(tk[:4], list(reversed(seq)))),
+              clause='two terms have the same type exactly when their UFF type sequences agree up to reversal')
+        S.add(I, FN + "/post/type-key-is-direction-independent#%d" % pi, p.pc, eq(tk, tkr),
+              clause='two terms have the same type exactly when their UFF type sequences agree up to reversal')
+        S.add(I, FN + "/post/type-key-ends-with-the-count-filed-under-the-central-bond#%d" % pi, p.pc, tk[4] == cnt(ck[0], ck[1]),
+              clause='for dihedrals also the number of torsions about the central bond')
+        S.add_canary(I, FN + "/canary#%d" % pi, [h for h in p.pc if not z3.is_quantifier(h)])
+    S.add_interp_obligations(I)
+
+    # -------- exclusion statement: applied through delete_if_all_in_set (proved above) exactly when the set can hold a dihedral
+    I2 = S.interp()
+    I2.allow_merge = False
+    models_py.install(I2)
+    models_np.install(I2)
+    st_x = {}
+
+    def m_exclude(ctx, args, kwargs):
+        if len(args) != 2 or kwargs:
+            raise OutOfSubset("delete_if_all_in_set is not called as delete_if_all_in_set(terms, exclude)")
+        st_x['call'] = (args[0], args[1])
+        out = SymSeq(z3.Int(I2.reg.fresh('n_kept')), [z3.Array(I2.reg.fresh('kept_c%d' % c), INT, INT) for c in range(4)], 4, 'ndarray', 'kept_dihedrals')
+        st_x['out'] = out
+        return out
+    I2.models[RU + ':delete_if_all_in_set'] = m_exclude
+    prev_len = I2.models.get('len.fallback')
+
+    def m_len(ctx, v):
+        if isinstance(v, SymSet) and getattr(v, 'size', None) is not None:
+            return Sym(v.size)
+        if prev_len:
+            return prev_len(ctx, v)
+        raise OutOfSubset("len of %r" % (v,))
+    I2.models['len.fallback'] = m_len
+    size = z3.Int('exclusion_set_size')
+    for given in (True, False):
+        def thunk2(given=given):
+            NT = z3.Int('n_dihedrals')
+            I2.assume(NT >= 0)
+            I2.assume(size >= 0)
+            terms = SymSeq(NT, [z3.Array('dihedral_c%d' % c, INT, INT) for c in range(4)], 4, 'ndarray', 'dihedrals')
+            atoms = I2.state.alloc('Atoms', {'__class__': 'Atoms', 'dihedrals': terms})
+            st_x.clear()
+            if given:
+                inset = z3.Function('in_exclusion_set', INT, z3.BoolSort())
+                excl = SymSet(lambda x: inset(x), INT, 'exclude')
+                excl.size = size
+            else:
+                excl = None
+            ctx = I2.block_ctx(RU, FN, {'atoms': atoms, 'exclude': excl})
+            ctx.exec_block([exc_st])
+            return atoms, terms, excl, dict(st_x)
+        paths2 = I2.explore(thunk2)
+        if not paths2:
+            raise OutOfSubset("no path through the exclusion statement")
+        for pi, p in enumerate(paths2):
+            if p.outcome != 'return':
+                raise OutOfSubset("the exclusion statement of assign_dihedral_types raises")
+            atoms, terms0, excl, stx = p.value
+            now = p.state.heap[atoms.oid]['dihedrals']
+            tag = FN + ('[exclusion set]' if given else '[no exclusion set]')
+            if 'call' in stx:
+                ok = given and stx['call'][0] is terms0 and stx['call'][1] is excl and now is stx['out']
+                S.add(I2, tag + "/post/exclusion-applied-only-when-the-set-can-hold-a-dihedral#%d" % pi, p.pc, z3.And(size >= 4, z3.BoolVal(bool(ok))),
+                      clause='honours the exclusion set')
+            else:
+                goal = z3.BoolVal(now is terms0)
+                if given:
+                    goal = z3.And(size < 4, goal)
+                S.add(I2, tag + "/post/no-exclusion-for-a-set-smaller-than-a-dihedral#%d" % pi, p.pc, goal, clause='honours the exclusion set')
+            S.add_canary(I2, tag + "/canary#%d" % pi, [h for h in p.pc if not z3.is_quantifier(h)])
+    S.add_interp_obligations(I2)
